@@ -403,7 +403,9 @@ func parseSubscriptArg(lex *lexer.PeekingLexer) (*SubscriptArgument, error) {
 }
 
 func nodeMetaFromPosition(pos lexer.Position) NodeMeta {
-	return NodeMeta{}
+	// Position within the expression text (1-based); ParseExpression shifts it by the position
+	// of the host YAML node.
+	return NodeMeta{Line: pos.Line, Column: pos.Column}
 }
 
 func getLexerPosFromNodeMeta(meta NodeMeta) lexer.Position {
